@@ -679,8 +679,8 @@ def search(ctx):
     for _ in range(ctx.n(120, 1500)):
         n = rng.randint(1, 4)
         S = rand_set(rng, [0, 1], n, 6)
-        for dom in ([0, 1], [0, 1, 2], [0, 1], [1, 0, 2, 3], [0, 1, 2]):
-            case = jcase("generate", dom, n, S)
+        for dom, dn in (([0, 1], 0), ([0, 1, 2], 0), ([0, 1], 1), ([1, 0, 2, 3], 0), ([0, 1, 2], 2), ([0, 1, 2], 0)):
+            case = jcase("generate" if dn != 1 else "build", dom, n + dn, S)      # the same sequences at another degree, too
             nh += 1
             ev += 1
             try:
